@@ -6,7 +6,7 @@ def plan(ctx):
     rnd = random.Random(ctx.seed or 13)
     thorough = ctx.tier == "thorough"
     obs = []
-    shapes = [(RS, 2, 1, 1), (RS, 2, 2, 2), (ISAV, 2, 1, 1)] + ([(ISAC, 2, 1, 1), (RS, 3, 1, 1), (RS, 3, 2, 2), (ISAV, 3, 2, 2)] if thorough else [])
+    shapes = [(RS, 2, 1, 1), (RS, 2, 2, 2)] + ([(ISAV, 2, 1, 1), (ISAC, 2, 1, 1), (RS, 3, 1, 1), (RS, 3, 2, 2), (ISAV, 3, 2, 2)] if thorough else [])
     for be, k, m, hd in shapes:
         n = k + m
         unit = k * WB[be]
@@ -27,7 +27,7 @@ def plan(ctx):
             if be == RS and (k, m) == (2, 1):
                 obs.append(l2_ob(be, k, m, hd, list(range(n)), ln=unit + 1, mode=2, dest=d, expect=-1, tag="recoob-all"))
     # back-end reconstruct for larger shapes (every erased index of every listed set is reconstructed in be_l1.c)
-    for be, k, m, hd in [(RS, 4, 2, 2), (ISAV, 3, 2, 2), (XOR, 3, 3, 3), (XOR, 6, 6, 4)] + ([(RS, 5, 3, 3), (ISAV, 4, 2, 2), (ISAC, 4, 3, 3), (RS, 8, 4, 4), (ISAV, 8, 4, 4), (XOR, 10, 5, 3), (XOR, 12, 6, 4)] if thorough else []):
+    for be, k, m, hd in [(RS, 4, 2, 2), (XOR, 3, 3, 3), (XOR, 6, 6, 4)] + ([(ISAV, 3, 2, 2), (RS, 5, 3, 3), (ISAV, 4, 2, 2), (ISAC, 4, 3, 3), (RS, 8, 4, 4), (ISAV, 8, 4, 4), (XOR, 10, 5, 3), (XOR, 12, 6, 4)] if thorough else []):
         n = k + m
         tol = hd - 1 if be == XOR else m
         sets = list(esets(n, 1, min(tol, 2)))
@@ -52,5 +52,5 @@ def plan(ctx):
             obs.append(be_l1_ob(XOR, k, m, hd, ch, tag="l1recx", idx=i, timeout=1500))
     return {"obs": obs,
             "assumptions": ["reconstructed fragment compared byte for byte (header, both checksums, payload) with the independent serializer's fragment for the same data",
-                            "LIBERASURECODE_WRITE_LEGACY_CRC unset", "L2 shapes k+m<=4 (5 in thorough); larger shapes at the back-end interface"],
+                            "LIBERASURECODE_WRITE_LEGACY_CRC unset", "L2 shapes k+m<=4 (5 in thorough); larger shapes at the back-end interface; ISA-L reconstruct is C19 in the quick tier"],
             "trusted": ENV_TRUST + GF_TRUST + ISAL_TRUST + ZCRC_TRUST + ["model/ref_format.c"]}
